@@ -1046,11 +1046,21 @@ func extraC03(c *Ctx) {
 	}
 	// executeLuaForCanary: Weight = Sprintf("%d", *weight), weight = parameter or the -1 sentinel
 	n := 0
-	for _, st := range StoresToField(exe, func(fa *ssa.FieldAddr) bool { nm, _ := FieldOf(fa); return nm == "Weight" }) {
+	var weightStores []*ssa.Store
+	for _, g := range samePkgClosure(p, exe) { // the input may be packed by a helper
+		weightStores = append(weightStores, StoresToField(g, func(fa *ssa.FieldAddr) bool { nm, _ := FieldOf(fa); return nm == "Weight" })...)
+	}
+	for _, st := range weightStores {
 		n++
 		t := TermOf(st.Val)
 		okFmt := t.Op == "call" && NameMatch(t.Name, "fmt.Sprintf") && len(t.Args) >= 1 && t.Args[0].Op == "const" && t.Args[0].Name == "%d"
-		okSrc := SliceHas(st.Val, func(x *Term) bool { return x.Op == "param" && x.Name == "weight" })
+		// the *int32 weight parameter of the function that packs the input (identified by type, not name)
+		okSrc := false
+		for _, par := range st.Parent().Params {
+			if par.Type().String() == "*int32" && BackwardSlice(st.Val)[par] {
+				okSrc = true
+			}
+		}
 		bad := ""
 		for x := range BackwardSlice(st.Val) {
 			if b, ok := x.(*ssa.BinOp); ok {
